@@ -14,6 +14,16 @@ THEMES = [('HTML5', 'default'), ('HTML5', 'minimal'), ('XHTML', 'default')]
 
 ROMAN = ['', 'I', 'II', 'III', 'IV', 'V', 'VI', 'VII', 'VIII', 'IX', 'X']
 WORDS = ['alpha', 'beta', 'gamma', 'delta', 'omega', 'kappa', 'sigma', 'lambda', 'theta', 'zeta']
+# index keys: every group of the index (letters, digits/symbols, underscore), display forms (key@display),
+# page formats (|textbf) and cross references (|see{..})
+INDEXKEYS = WORDS + ['Alpha', 'Omega', '2nd', '42', '\\_\\_init\\_\\_', '\\_private', '\\#hash', '\\$var',
+                     'zeta@\\textbf{zeta}', 'beta|textbf', 'gamma|see{alpha}', '\\_under@\\texttt{\\_under}']
+# labels that differ only in characters that are not allowed in file names, or that equal names the
+# filename template hands out by itself
+SEPS = [':', '.', '-', ';']
+RESERVED = ['index', 'sect0001', 'sect0002', 'paper', 'start']
+FILENAMES = [None, None, None, None, 'paper', 'paper.html', '[$id, sect$num(4)]', 'index [$title, sect$num(4)]',
+             'start [$id, node$num(3)]', 'index [$id(2), $title, sect$num]']
 LEVELS = {'article': ['section', 'subsection', 'subsubsection'],
           'book': ['chapter', 'section', 'subsection']}
 LEVELNUM = {'part': -1, 'chapter': 0, 'section': 1, 'subsection': 2, 'subsubsection': 3}
@@ -36,6 +46,8 @@ class DocGen:
         self.bibkeys = ['key%s' % c for c in 'abc'[:rng.randint(1, 3)]] if self.use_bib else []
         self.toc_cmd = rng.random() < 0.5
         self.sections = []        # list of dicts
+        self.collide = rng.random() < 0.3     # section labels that collide as file names
+        self.used = set()
 
     def newlabel(self, kind, number):
         self.nlab += 1
@@ -45,6 +57,12 @@ class DocGen:
         elif style < 0.25: base = kind[:3] + '-' + 'x%d' % self.nlab
         elif style < 0.32 and kind != 'equation': base = kind[:3] + '_' + 'x%d' % self.nlab   # '_' in a math-mode label: see ASSUMPTIONS
         elif style < 0.38: base = kind[:3] + '.' + 'x%d' % self.nlab
+        if self.collide and kind in ('section', 'subsection', 'subsubsection', 'chapter') and self.rng.random() < 0.7:
+            cands = [st + sep + 'setup' for st in ('sec', 'part') for sep in SEPS] + RESERVED
+            cands = [c for c in cands if c not in self.used]
+            if cands:
+                base = self.rng.choice(cands)
+        self.used.add(base)
         self.labels.append(base)
         self.expected[base] = number
         self.kind[base] = kind
@@ -67,7 +85,7 @@ class DocGen:
                 elif r < 0.36:
                     items.append(('foot',))
                 elif r < 0.48 and self.use_index:
-                    items.append(('index', rng.choice(WORDS), rng.choice(WORDS) if rng.random() < 0.3 else None))
+                    items.append(('index', rng.choice(INDEXKEYS), rng.choice(WORDS) if rng.random() < 0.3 else None))
                 elif r < 0.58 and self.bibkeys:
                     items.append(('cite', rng.choice(self.bibkeys)))
                 elif r < 0.68:
@@ -144,7 +162,11 @@ class DocGen:
                 elif k == 'foot':
                     out.append('Word\\footnote{note %s} more.' % rng.choice(WORDS))
                 elif k == 'index':
-                    out.append('term\\index{%s}' % (it[1] if it[2] is None else it[1] + '!' + it[2]))
+                    key = it[1]
+                    if it[2] is not None:      # sub-entry: goes before a page format / see
+                        head, bar, fmt = key.partition('|')
+                        key = head + '!' + it[2] + bar + fmt
+                    out.append('term\\index{%s}' % key)
                 elif k == 'cite':
                     out.append('see \\cite{%s}.' % it[1])
                 elif k == 'eq':
@@ -199,7 +221,8 @@ def gen_config(rng):
             'split': rng.choice([-10, -1, 0, 1, 1, 2, 2, 3, 4]),
             'tocdepth': rng.choice([0, 1, 2, 3, 3, 5]),
             'nonfiles': rng.random() < 0.4,
-            'baseurl': rng.choice(['', '', BASE_URL, BASE_URL + '/'])}
+            'baseurl': rng.choice(['', '', BASE_URL, BASE_URL + '/']),
+            'filename': rng.choice(FILENAMES)}
 
 
 # ---------------------------------------------------------------- rendering with the real code
@@ -215,6 +238,8 @@ def render(source, cfg):
         from plasTeX.Renderers.HTML5.Config import addConfig
         addConfig(config)
     config['files']['split-level'] = cfg['split']
+    if cfg.get('filename'):
+        config['files']['filename'] = cfg['filename']
     config['document']['toc-depth'] = cfg['tocdepth']
     config['document']['toc-non-files'] = cfg['nonfiles']
     config['document']['base-url'] = cfg['baseurl']
@@ -235,13 +260,17 @@ def render(source, cfg):
         doc.userdata['jobname'] = 'job'
         tex.parse()
         Renderer = importlib.import_module('plasTeX.Renderers.' + cfg['renderer']).Renderer
-        Renderer().render(doc)
+        rend = Renderer()
+        rend.render(doc)
         files = {}
+        docs = doc.getElementsByTagName('document')
+        start = rend.files.get(docs[0]) if docs else None
         for root, _, fs in os.walk(d):
             for f in fs:
                 if f.endswith('.html'):
                     p = os.path.join(root, f)
                     files[os.path.relpath(p, d)] = open(p, encoding='utf-8', errors='replace').read()
+        render.start = start
         return files
     finally:
         os.chdir(old)
@@ -304,7 +333,7 @@ def split_href(href, baseurl):
     return True, f, frag
 
 
-def analyse(files, doc, cfg):
+def analyse(files, doc, cfg, start=None):
     """list of problems (strings) of the rendered output against the property text"""
     probs = []
     pages = {}
@@ -364,7 +393,7 @@ def analyse(files, doc, cfg):
         if internal and target in idsets and lab not in idsets[target]:
             probs.append('ref-target: \\ref{%s} links to %r but %s has no element with id %r' % (lab, href, target, lab))
     # reachability with a table of contents
-    start = 'index.html'
+    start = start or 'index.html'
     if toc_present(doc, cfg, pages) and start in pages:
         seen, todo = {start}, [start]
         while todo:
@@ -400,7 +429,7 @@ def check(doc, cfg):
         files = render(doc['source'], cfg)
     except Exception as e:  # the renderer must not crash on a document of the grammar
         return ['render-error: %s: %s' % (type(e).__name__, str(e)[:200])], {'files': 0}
-    probs = analyse(files, doc, cfg)
+    probs = analyse(files, doc, cfg, getattr(render, 'start', None))
     return probs, {'files': len(files), 'cross': cross_links(files, cfg)}
 
 
